@@ -105,12 +105,12 @@ def _interval_case(kind, left, right):
 
 
 def _interval_cases():
+    # 'start/duration' and 'duration/end' with a years/months part (PnYnMnDTnHnMnS, PnYnM) were tried and are NOT claimed: their value
+    # clause stayed `unknown` at 300 s in every solver of the portfolio (two month-shift definitions to be identified before the clamped
+    # day can be compared); those forms remain covered by the bounded constructive oracle only (DESIGN.md 12.8)
     cs = [_interval_case("start/end", ("dt", _DT1), ("dt", _DT2)),
-          _interval_case("start/duration", ("dt", _DT1), ("dur", _DUR)),
-          _interval_case("start/duration", ("dt", _DT2), ("dur", _DUR_YM)),
+          _interval_case("start/end", ("dt", _DT2), ("dt", _DT1)),
           _interval_case("start/duration", ("dt", _DT1), ("dur", _DUR_W)),
-          _interval_case("duration/end", ("dur", _DUR), ("dt", _DT1)),
-          _interval_case("duration/end", ("dur", _DUR_YM), ("dt", _DT2)),
           _interval_case("duration/end", ("dur", _DUR_W), ("dt", _DT1))]
     return {c.__name__: c for c in cs}
 
@@ -149,7 +149,7 @@ ASSUMPTIONS = [
     "string shape: proofs are per shape (which designators are present, digits per number, fraction length); all digit values symbolic. Quick tier: 189 shapes (all 63 designator subsets, widths 1/3/9/10, fraction lengths 1..9 on every admissible unit, 12 ill-formed shapes); thorough tier: widths 1..10 and both separators for every fraction length",
     "A-FLOAT: the float products int(frac) / 10**k * 24 etc. and timedelta's float accumulation are treated as exact real arithmetic with one final round-half-even (CPython's delta_new); the bounded sweep compares with exact Fractions on the real objects",
     "Duration.__new__ is used through its contract (proved under C09, real-argument case widened to days/hours/minutes/seconds)",
-    "interval strings: pendulum.parse('start/end') is proved per shape in both tiers, 'start/duration' and 'duration/end' (full PnYnMnDTnHnMnS, PnYnM and PnW durations) in the thorough tier only (harness lemma c13_interval: _parse_iso8601_interval, parse_iso8601, _Interval and parser._parse's assembly executed from their source; instance(), DateTime.add/subtract and Interval construction through their contracts; endpoints in UTC; a result past the ends of the calendar is an accepted ValueError); other endpoint shapes, offsets and the tz option are checked bounded (constructive oracle)",
+    "interval strings: pendulum.parse('start/end') is proved per shape in both tiers, 'start/duration' and 'duration/end' with a PnW duration in the thorough tier only (durations with a years/months part were tried and stayed `unknown`: not claimed, bounded only) (harness lemma c13_interval: _parse_iso8601_interval, parse_iso8601, _Interval and parser._parse's assembly executed from their source; instance(), DateTime.add/subtract and Interval construction through their contracts; endpoints in UTC; a result past the ends of the calendar is an accepted ValueError); other endpoint shapes, offsets and the tz option are checked bounded (constructive oracle)",
     "Rust parser: never proved; rebuilt from the working tree on every run, bounded comparison with the exact oracle",
 ]
 EXPLANATION = ("_parse_iso8601_duration (pure-Python backend) is executed symbolically from its source once per duration shape with symbolic digits: an ill-formed shape (fraction on years/months or "
@@ -164,7 +164,7 @@ def bounded(ctx):
 
 
 MANIFEST_ENTRY = {
-    "text": "For every duration shape (any subset of the designators Y M D T H M S or W alone, 1..10 digits per number, a fraction of 1..9 digits after '.' or ',' on the smallest component) and ALL digit values, the pure-Python _parse_iso8601_duration is proved to return a Duration with exactly the written years and months and a native value within half a microsecond of the exact rational value of the remaining components, to raise a ValueError exactly when that value does not fit a timedelta, and to reject fractional years/months, fractions before the last component and weeks mixed with other units. pendulum.parse('start/end') is proved per shape to return the Interval with exactly the denoted endpoints in UTC, and (thorough tier) 'start/duration' and 'duration/end' to add / subtract the duration from the given endpoint with years and months first, the day clamped, then the elapsed part. The compiled parser and the interval forms on other shapes are checked bounded against an exact Fraction oracle on both backends.",
+    "text": "For every duration shape (any subset of the designators Y M D T H M S or W alone, 1..10 digits per number, a fraction of 1..9 digits after '.' or ',' on the smallest component) and ALL digit values, the pure-Python _parse_iso8601_duration is proved to return a Duration with exactly the written years and months and a native value within half a microsecond of the exact rational value of the remaining components, to raise a ValueError exactly when that value does not fit a timedelta, and to reject fractional years/months, fractions before the last component and weeks mixed with other units. pendulum.parse('start/end') is proved per shape to return the Interval with exactly the denoted endpoints in UTC, and (thorough tier, PnW durations) 'start/duration' and 'duration/end' to add / subtract exactly the duration from the given endpoint. The compiled parser and the interval forms on other shapes are checked bounded against an exact Fraction oracle on both backends.",
     "note": "Trusted: pyvc, z3/cvc5, A-RE, A-FLOAT (float arithmetic as exact reals; the bounded sweep uses exact Fractions on the real objects). Proof is per shape: 189 shapes quick, more in the thorough tier. Three genuine defects of the Python parser found by refuted obligations and fixed (fractions always divided by 10, fractional weeks truncated; fractional seconds truncated; OverflowError instead of ValueError). Rust defects (coarse W/D/H fractions, u32 wrap-around, 'P1.W', 'P1WT1H') and the float decomposition of durations >= 2^32 s in interval assembly are bounded known findings.",
     "technique": "contract-based deductive verification per duration shape (symbolic execution of the real parser with symbolic digits, z3/cvc5); bounded exact-oracle sweeps for the Rust parser and interval assembly",
     "design_ref": "DESIGN.md section 8 (C13), 12",
